@@ -33,7 +33,9 @@ class Case:
     """name, factory() -> real module, input shape (without batch), optional context shape, symbolic buffers,
     assumptions(sym_params dict, x Sym) -> [Bool terms]"""
 
-    def __init__(self, name, factory, in_shape, ctx_shape=None, buffers=(), positive_buffers=(), assume=None, post=None, eval_mode=True, tier="quick", note="", domain=None, classes=()):
+    def __init__(self, name, factory, in_shape, ctx_shape=None, buffers=(), positive_buffers=(), assume=None, post=None, eval_mode=True, tier="quick", note="", domain=None, classes=(), rt_box=None):
+        # rt_box: {(order, stage): (lo, hi)} closed box assumed for the round-trip start / middle values
+        self.rt_box = rt_box or {}
         self.name, self.factory, self.in_shape, self.ctx_shape = name, factory, tuple(in_shape), ctx_shape
         self.buffers, self.positive_buffers, self.assume, self.post = buffers, positive_buffers, assume, post
         self.eval_mode, self.tier, self.note, self.domain, self.classes = eval_mode, tier, note, domain, classes
@@ -155,9 +157,11 @@ def all_cases():
     A(Case("Tanh/2d", lambda: NL.Tanh(), (2,)))
     A(Case("LogTanh/2d", lambda: NL.LogTanh(cut_point=1), (1,)))
     A(Case("LeakyReLU/2d", lambda: NL.LeakyReLU(negative_slope=0.25), (2,)))
-    A(Case("Sigmoid/2d", lambda: NL.Sigmoid(temperature=1.5), (2,), buffers=("temperature",), positive_buffers=("temperature",), note="temperature > 0 assumed"))
-    A(Case("Sigmoid/learned-T", lambda: NL.Sigmoid(temperature=1.5, learn_temperature=True), (1,), assume=_pos(["temperature"]), tier="thorough"))
-    A(Case("Logit/2d", lambda: NL.Logit(temperature=1.5), (1,), buffers=("temperature",), positive_buffers=("temperature",), domain=_in_box(1e-6, 1 - 1e-6, strict=True), note="inside the declared eps clamp"))
+    SIG_BOX = {("if", "mid"): (1e-6, 1 - 1e-6), ("fi", "start"): (1e-6, 1 - 1e-6)}
+    LOGIT_BOX = {("fi", "mid"): (1e-6, 1 - 1e-6), ("if", "start"): (1e-6, 1 - 1e-6)}
+    A(Case("Sigmoid/2d", lambda: NL.Sigmoid(temperature=1.5), (2,), buffers=("temperature",), positive_buffers=("temperature",), note="temperature > 0 assumed; round trips inside the declared eps clamp", rt_box=SIG_BOX))
+    A(Case("Sigmoid/learned-T", lambda: NL.Sigmoid(temperature=1.5, learn_temperature=True), (1,), assume=_pos(["temperature"]), tier="thorough", rt_box=SIG_BOX))
+    A(Case("Logit/2d", lambda: NL.Logit(temperature=1.5), (1,), buffers=("temperature",), positive_buffers=("temperature",), domain=_in_box(1e-6, 1 - 1e-6, strict=True), note="inside the declared eps clamp", rt_box=LOGIT_BOX))
     A(Case("GatedLinearUnit/D=1", lambda: NL.GatedLinearUnit(), (1,), ctx_shape=(1,)))
     A(Case("GatedLinearUnit/D=2,ctx=2", lambda: NL.GatedLinearUnit(), (2,), ctx_shape=(2,)))
     A(Case("GatedLinearUnit/D=2,ctx=1", lambda: NL.GatedLinearUnit(), (2,), ctx_shape=(1,)))
